@@ -68,10 +68,14 @@ theorem bankErosion_series_nonneg (p : BankErosion.Params (RNum R)) (q v : List 
   intro x
   exact bankErosion_nonneg p _ (bank_meanAnnual_nonneg p h100 h1 h2 h3 h4 h5 h6 h7 h8 h9) hpf0 hfrac hdt x
 
-/-- zero driver ⇒ zero load, exactly (parallels `bankErosion_zero_driver`): no outflow, no volume or no long-term flow -/
+/-- zero driver ⇒ zero load, exactly (parallels `bankErosion_zero_driver`): no outflow, no volume or no long-term flow, for a
+positive time step (the total is `0 ⊘ Δt`; for `Δt = 0` IEEE-754 gives NaN — the `RNum` quotient by 0 follows the ℝ convention,
+so the hypothesis is what keeps the statement honest) -/
 theorem bankErosion_zero_driver (p : BankErosion.Params (RNum R)) (ma outflow tv : RNum R)
+    (hdt : 0 < p.durationInSeconds.val)
     (h : outflow.val ≤ 0 ∨ tv.val ≤ 0 ∨ p.longTermAvDailyFlow.val ≤ 0) :
     (BankErosion.step p ma (outflow, tv)).1.val = 0 ∧ (BankErosion.step p ma (outflow, tv)).2.val = 0 := by
+  have _hne : p.durationInSeconds.val ≠ 0 := ne_of_gt hdt   -- the divisor of `0 ⊘ Δt`
   have hl : (BankErosion.linkDischargeFactor p outflow tv).val = 0 := by
     unfold BankErosion.linkDischargeFactor
     rw [if_pos]
